@@ -1533,7 +1533,7 @@ for _p in sorted(_glob.glob(_os.path.join(_os.path.dirname(_os.path.abspath(__fi
 for _p in sorted(_glob.glob(_os.path.join(_os.path.dirname(_os.path.abspath(__file__)), "refactors", "rf5", "*.diff"))):
     RF("RF5-" + _os.path.basename(_p)[:-5], ALL19, [("@patch", "selftest/refactors/rf5/" + _os.path.basename(_p), "")])
 
-# sixth round: the round-5 seeds with their hidden defect repaired -- the same clean-up / hardening, behaviour preserved.
+# sixth round: the round-5 (`-e-`) and round-7 (`-g-`) seeds with their hidden defect repaired -- the same clean-up / hardening, behaviour preserved.
 # A check that caught the seed only because of the new *shape* raises a false alarm here.
 for _p in sorted(_glob.glob(_os.path.join(_os.path.dirname(_os.path.abspath(__file__)), "refactors", "rf6", "*.diff"))):
     RF("RF6-" + _os.path.basename(_p)[:-5], ALL19, [("@patch", "selftest/refactors/rf6/" + _os.path.basename(_p), "")])
@@ -1569,6 +1569,11 @@ KNOWN_LIMITS = {
     "RF5-C17-02-arena-struct": ("`Outbound::{buf, used}` (anchored state of C17) grouped into a private `Arena` struct", ["C01/", "C02/", "C12/", "C17/"]),
     "RF5-C18-04-generation-in-outbound": ("the generation counter (anchored state of C05/C18) moves from SessionData into Outbound", ["C05/", "C18/"]),
     "RF5-C09-02-ser-body-len-cursor": ("`MqttSerializer::index` (anchored state of C01.len) replaced by a body-length counter", ["C01/len/"]),
+    "RF6-C04-g-repaired": ("all three progress setters (and `SendState::set_written`) return \"the packet reached its flush stage\" and the step flushes on that "
+                           "result: the flush decision is a call result, not the comparison `written + count >= len` the clause looks for "
+                           "(the seed it repairs, where one setter still answers \"found\", fails the same clause)",
+                           ["C01/store/flush-after-complete-write", "C04/store/flush-after-complete-write", "C13/store/flush-after-complete-write",
+                            "C15/store/flush-after-complete-write"]),
     # round 7: documented limits
     "RF7-G02-01-written-progress-combinators": ("`SendState::set_written(&mut self, written, len)` becomes a pure constructor `after_write(written, len) -> Self` "
                                                 "(a new function, folded into the three setters): the anchor of the `store` group is gone",
